@@ -397,29 +397,23 @@ def StepAgree (ms : AStep) (ss : Spec.Eval.Step) : Prop :=
 
 /-- a string key (`.k`, `['k']`, and a float / bool / null key through its text) -/
 theorem access_str (ref : Value) (ns : Bool) (k : Bytes) (last : Bool) :
-    StepAgree (accessStep ref ns (-1) k) (Spec.Eval.access (absV ref) ns (.str k) last) := by
+    StepAgree (accessStep ref ns none k) (Spec.Eval.access (absV ref) ns (.str k) last) := by
   cases ref <;> simp [accessStep, Spec.Eval.access, absV, StepAgree]
   all_goals (try (cases ns <;> cases last <;> simp [absV]))
   · rename_i id kvs
-    by_cases hk : k.isEmpty = true
-    · simp_all
-    · simp_all
-      exact key_abs kvs k
+    exact key_abs kvs k
 
 /-- an integer key (`.N`, `[N]`) -/
 theorem access_int (ref : Value) (ns : Bool) (i : Int) (last : Bool) :
-    StepAgree (accessStep ref ns i []) (Spec.Eval.access (absV ref) ns (.int i) last) := by
+    StepAgree (accessStep ref ns (some i) []) (Spec.Eval.access (absV ref) ns (.int i) last) := by
   cases ref <;> simp [accessStep, Spec.Eval.access, absV, StepAgree]
   all_goals (try (cases ns <;> cases last <;> simp [absV]))
   · rename_i id xs
-    by_cases hneg : i < 0
-    · simp [hneg]
-    · have hne : ¬ i = -1 := by omega
-      simp [hneg, hne]; exact index_abs xs i
+    exact index_abs xs i
 
 /-- a key of another kind (float, bool, null): the interpreter uses its text `k` as a string key -/
 theorem access_other (ref : Value) (ns : Bool) (k : Bytes) (last : Bool) :
-    StepAgree (accessStep ref ns (-1) k) (Spec.Eval.access (absV ref) ns .other last) := by
+    StepAgree (accessStep ref ns none k) (Spec.Eval.access (absV ref) ns .other last) := by
   cases ref <;> simp [accessStep, Spec.Eval.access, absV, StepAgree]
   all_goals (try (cases ns <;> cases last <;> simp [absV]))
 
